@@ -422,6 +422,10 @@ class FieldIndex(BaseIndexMixin, persistent.Persistent):
         else:
             result = self.family.IF.multiunion(sets)
 
+        if result is None:
+            # 'and' of an empty query list: nothing matches
+            result = self.family.IF.Set()
+
         return result
 
     def apply(self, q):
